@@ -269,6 +269,38 @@ pub fn run(ctx: &Ctx, part: &str) -> i32 {
         });
     }
     if part.is_empty() || part == "main" {
+        // zero-length entries: the empty key inserted many times with empty and non-empty values
+        // (entries that occupy no byte in the buffer), stable sort, order-revealing merges
+        let n = ctx.n(300, 6000);
+        ctx.par("empty-key", n, true, |idx, rng| {
+            let mut scfg = gen_scfg(rng);
+            scfg.parallel = idx % 7 == 0;
+            scfg.stable = true;
+            let kind = [MergeKind::First, MergeKind::Last, MergeKind::Concat][idx as usize % 3];
+            let count = rng.range(2, 400);
+            let mut inserts: Vec<Entry> = Vec::new();
+            let mut model: BTreeMap<Vec<u8>, Vec<Vec<u8>>> = BTreeMap::new();
+            for seq in 0..count {
+                let k: Vec<u8> = match rng.below(4) {
+                    0 | 1 => vec![],
+                    2 => vec![0],
+                    _ => vec![rng.below(3) as u8, 1],
+                };
+                let v: Vec<u8> = if rng.chance(1, 2) {
+                    vec![]
+                } else if kind == MergeKind::Concat {
+                    super::sorter_common::token(seq as u32, rng.below(4))
+                } else {
+                    vec![seq as u8, (seq >> 8) as u8]
+                };
+                model.entry(k.clone()).or_default().push(v.clone());
+                inserts.push((k, v));
+            }
+            let plan = InsertPlan { inserts, model };
+            check_case(ctx, "empty-key", idx, &scfg, kind, Storage::CursorVec, &plan, rng);
+        });
+    }
+    if part.is_empty() || part == "main" {
         // more than 256 live chunks: tiny budget, no chunk merging
         let n = ctx.n(16, 160);
         ctx.par("many-chunks", n, true, |idx, rng| {
